@@ -100,6 +100,14 @@ class Layout:
                 self.slots.append((p, n, kind))
                 self.slot_id[f"{p}.{n}"] = sid
                 self.prov[n].append(sid)
+        # attachment passes: listeners named in `late` are attached with add_listener after construction (one call
+        # per inner list); `prov` keeps the constructor's providers only, `prov_pass[k]` those of late pass k
+        self.late = [list(ps) for ps in scn.get("late", [])]
+        late_set = {p for ps in self.late for p in ps}
+        self.prov_all = {n: list(v) for n, v in self.prov.items()}
+        self.prov = {n: [sid for sid in v if self.slots[sid][0] not in late_set] for n, v in self.prov_all.items()}
+        self.prov_pass = [{n: [sid for sid in v if self.slots[sid][0] in ps] for n, v in self.prov_all.items()}
+                          for ps in self.late]
         # slots whose reads the implementation cannot report
         self.silent = {i for i, (p, n, k) in enumerate(self.slots) if p == "machine" and k == "attr"}
 
@@ -108,6 +116,9 @@ class Layout:
             self.name_id[name] = len(self.names)
             self.names.append(name)
             self.prov[name] = []
+            self.prov_all[name] = []
+            for d in self.prov_pass:
+                d[name] = []
         return self.name_id[name]
 
 
@@ -199,8 +210,11 @@ def build_machine(scn, lay):
             return None
         ns["on_enter_b"] = on_enter_b
     cls = type(StateMachine)("M", (StateMachine,), ns)
-    listeners = [objs["L0"], objs["L1"]]
+    late_set = {p for ps in lay.late for p in ps}
+    listeners = [objs[p] for p in ("L0", "L1") if p not in late_set]
     sm = cls(objs["model"], listeners=listeners)
+    for ps in lay.late:
+        sm.add_listener(*[objs[p] for p in ps])
     objs["machine"] = sm
     return sm, objs, values
 
@@ -300,12 +314,13 @@ def second_instance_expectation(scn):
 class _Namespace(dict):
     """locals mapping for `eval`: a name is worth `s1 and s2 and … and sk` over its providers"""
 
-    def __init__(self, lay, rho, log):
+    def __init__(self, lay, rho, log, prov=None):
         super().__init__()
         self.lay, self.rho, self.log = lay, rho, log
+        self.prov = lay.prov if prov is None else prov
 
     def __getitem__(self, name):
-        slots = self.lay.prov.get(name)
+        slots = self.prov.get(name)
         if not slots:
             raise KeyError(name)
         v = None
@@ -329,7 +344,7 @@ def spec_expectation(scn, lay):
             n = en["name"]
             if not lay.prov.get(n):
                 verdict = "InvalidDefinition" if verdict == "ok" else verdict
-            codes.append((compile(n, "<guard>", "eval"), en["group"] == "cond"))
+            codes.append((compile(n, "<guard>", "eval"), en["group"] == "cond", None))
             continue
         cls, node = G.classify(en["canon"])
         if cls == "unparsable":
@@ -340,7 +355,7 @@ def spec_expectation(scn, lay):
         else:
             if any(not lay.prov.get(n) for n in G.names_of(node)) and verdict == "ok":
                 verdict = "InvalidDefinition"
-            codes.append((compile(en["canon"].strip(), "<guard>", "eval"), en["group"] == "cond"))
+            codes.append((compile(en["canon"].strip(), "<guard>", "eval"), en["group"] == "cond", set(G.names_of(node))))
     if verdict != "ok":
         return dict(construct=verdict, rounds=[])
     # all cond entries first, then all unless entries (declaration order inside each)
@@ -348,17 +363,26 @@ def spec_expectation(scn, lay):
     rounds = []
     for rho in scn["rounds"]:
         log = []
-        ns = _Namespace(lay, rho, log)
         out = "fired"
-        for code, expected in codes:
-            try:
-                v = eval(code, {"__builtins__": {}}, ns)
-                ok = bool(v) == expected
-            except Exception as e:  # noqa: BLE001
-                out = "raised:" + type(e).__name__
-                break
-            if not ok:
-                out = "notfired"
+        # the constructor's providers first; then every late attachment pass: an entry given by name whose names that
+        # pass provides must hold over those providers too ("a guard name provided by several objects must hold on
+        # all of them", attachment by attachment)
+        plan = [(lay.prov, codes)]
+        for pv in lay.prov_pass:
+            plan.append((pv, [c for c in codes if c[2] is not None and all(pv.get(n) for n in c[2])]))
+        for pv, cs in plan:
+            ns = _Namespace(lay, rho, log, pv)
+            for code, expected, _names in cs:
+                try:
+                    v = eval(code, {"__builtins__": {}}, ns)
+                    ok = bool(v) == expected
+                except Exception as e:  # noqa: BLE001
+                    out = "raised:" + type(e).__name__
+                    break
+                if not ok:
+                    out = "notfired"
+                    break
+            if out != "fired":
                 break
         rounds.append((out, log))
     return dict(construct="ok", rounds=rounds)
@@ -374,7 +398,7 @@ def driver_lines(scn, lay):
     for en in scn["entries"]:
         g = "c" if en["group"] == "cond" else "u"
         if en["kind"] != "expr":
-            body.append((g, f"entry {g} P n{lay.nid(en['name'])}"))
+            body.append((g, f"entry {g} O n{lay.nid(en['name'])}"))
             continue
         lines.append("text " + G.hexs(en["text"]))
         cls, node = G.classify(en["canon"])
@@ -387,6 +411,10 @@ def driver_lines(scn, lay):
     for n in lay.names:
         ps = lay.prov.get(n, [])
         lines.append(f"prov {lay.name_id[n]} " + (",".join(map(str, ps)) if ps else "-"))
+    for k, pv in enumerate(lay.prov_pass):
+        for n in lay.names:
+            ps = pv.get(n, [])
+            lines.append(f"lprov {k} {lay.name_id[n]} " + (",".join(map(str, ps)) if ps else "-"))
     lines += [l for g, l in body if g == "c"] + [l for g, l in body if g == "u"]
     for rho in scn["rounds"]:
         lines.append("rho " + " ".join(f"{lay.slot_id[s]}={t}" for s, t in rho.items() if s in lay.slot_id))
